@@ -289,6 +289,40 @@ def _norm_host(inst):
     return m, xdims
 
 
+def _doc_same_pads(inst):
+    """ONNX Conv, auto_pad=SAME_*: output ceil(x/s); total = max(0, (out-1)*s + (k-1)*d+1 - x); the odd element goes to the end
+    for SAME_UPPER, to the beginning for SAME_LOWER (= PadConv.total_spec / split_pads, proved to give that output).
+    -> (pads [begins..., ends...], spatial output dims)"""
+    n = inst["n"]
+    ss = inst["strides"] or [1] * n
+    ds = inst["dil"] or [1] * n
+    b, e, outs = [], [], []
+    for x, k, s_, d in zip(inst["xs"], inst["kernel"], ss, ds):
+        out = -(-x // s_)
+        total = max(0, (out - 1) * s_ + (k - 1) * d + 1 - x)
+        p1 = total // 2
+        lo, hi = (p1, total - p1) if inst["auto_pad"] == "SAME_UPPER" else (total - p1, p1)
+        b.append(lo)
+        e.append(hi)
+        outs.append(out)
+    return b + e, outs
+
+
+def _spec_host(host, inst, opname):
+    """the host re-stated per the operator document in a form onnxruntime executes: auto_pad removed, explicit document pads"""
+    import onnx
+    from onnx import helper
+    m = onnx.ModelProto()
+    m.CopyFrom(host)
+    nd = [x for x in m.graph.node if x.op_type == opname][0]
+    pads, outs = _doc_same_pads(inst)
+    keep = [a for a in nd.attribute if a.name not in ("auto_pad", "pads")]
+    del nd.attribute[:]
+    nd.attribute.extend(keep)
+    nd.attribute.append(helper.make_attribute("pads", pads))
+    return m, outs
+
+
 def _norm_lit(inst, in_shape, out_shape):
     def shp(s):
         return copt(s, lambda l: clist([copt(d, cz) for d in l]))
@@ -357,7 +391,14 @@ def _norm_stream(ctx, mod, n_inst):
         for k in range(3):
             rs = np.random.RandomState(200 + k)
             feeds.append({"x": (rs.randint(0, 9, xdims).astype(np.uint8) if inst["integer"] else rs.randint(-4, 5, xdims).astype(np.float32))})
-        reasons, ncmp = U.oracle(host, new, feeds, exact=True)
+        spec, shapes = None, None
+        if inst["auto_pad"] in ("SAME_UPPER", "SAME_LOWER"):
+            spec, outs = _spec_host(host, inst, opname)
+            shapes = [[xdims[0], 2 * inst["group"]] + outs]
+        n_mis = len(U.SPEC_MISMATCH)
+        reasons, ncmp = U.oracle(host, new, feeds, exact=True, spec_host=spec, host_shapes=shapes)
+        if len(U.SPEC_MISMATCH) > n_mis:
+            ctx.tie_broken("harness", f"{FAM}:normalize", f"{U.SPEC_MISMATCH[-1]} on {inst}")
         if reasons:
             kc = "normalize-auto-pad-ignores-dilations" if dil_matters else f"normalize:{inst['auto_pad']}"
             U.report(ctx, FAM, kc, f"auto_pad={inst['auto_pad']} normalised to explicit pads changes the model",
@@ -392,7 +433,7 @@ def _norm_stream(ctx, mod, n_inst):
         return
     nbad, variant = U.settle(ctx, FAM, "normalize", meta, di, df, lambda m: "dilations" if m["dil_matters"] else None)
     ctx.cover(padconv_normalize_instances=n_inst, padconv_normalize_fired=fired, padconv_compute_pads_direct=direct,
-              padconv_normalize_variant=variant)
+              padconv_normalize_variant=variant, c05b_oracle_stats=dict(U.STATS))
     ctx.obligation("correspondence padconv/normalize: fired? and emitted pads = PadConv.normalize (as read or repaired) on every instance; compute_pads called directly", nbad == 0)
 
 
